@@ -130,6 +130,7 @@ Section P.
     - fin I.
     - fin I.
     - fin I.
+    - fin I.
   Qed.
 
   (* ---- whole histories over several queues ---- *)
@@ -292,6 +293,7 @@ Section P.
     - fin I.
     - fin I.
     - fin I.
+    - fin I.
   Qed.
 
   Lemma dusq_run ops s qs :
@@ -343,3 +345,8 @@ Proof. destruct e as [| | |[|]| | |[|]|]; reflexivity. Qed.
 Lemma enter_is_reopen pyeq (S : Type) sstep sview set q (s : S) st e pre :
   gstep pyeq S sstep sview set q s st (Enter e pre) = gstep pyeq S sstep sview set q s st (Reopen pre).
 Proof. cbn [gstep]. now rewrite hold_enter_all. Qed.
+
+(* the caller changing a value object it handed in (or got out) is not an operation on the container *)
+Lemma caller_mutation_identity pyeq (S : Type) sstep sview set q (s : S) st :
+  gstep pyeq S sstep sview set q s st CallerMutates = (s, st, Ok (ROpt None)).
+Proof. reflexivity. Qed.
